@@ -46,6 +46,7 @@ class SymMgr:
         self.ext = z3.Array(f'EXT{tag}', I, I)
         self.bdd = None
         self.tag = tag
+        self.axst = self.st0      # state the lookup axioms (I3/I6 second halves) speak about
 
     # ---- pre-state
     def pre_axioms(self, room=True):
@@ -65,10 +66,10 @@ class SymMgr:
             c.assume(a)
 
     def pred_axiom(self, a, b, c):
-        return pred_axiom_at(self.st0, self.N, a, b, c)
+        return pred_axiom_at(self.axst, self.N, a, b, c)
 
     def ite_axiom(self, g, u, v):
-        return ite_axiom_at(self.st0, self.den, self.N, g, u, v)
+        return ite_axiom_at(self.axst, self.den, self.N, g, u, v)
 
     def install(self, B, reordering=False):
         """Create a real BDD and replace its tables by proxies."""
